@@ -83,13 +83,14 @@ type Focus struct {
 	ForeignPricePct int       // percent of the prices quoted in the token that is not the base denomination, when the host runs an exchange-rate service (an eighth of it otherwise; 0 = never)
 	ExchangePct int           // percent of those cases whose host runs an exchange-rate service
 	ForeignCasePct int        // percent of the cases that quote prices in the second token
+	IllegalPricingPct int     // percent of the pricing texts of binds / updates that break the promotion rules (must be rejected)
 	Only20Pct  int            // percent of cases restricted to 20-byte addresses everywhere (avoids a listed finding's trigger)
 	only20     bool           // drawn per case
 	foreign    bool           // drawn per case: prices in the second token (and no base-denomination change)
 }
 
 func FocusFor(prop string, tier string) Focus {
-	f := Focus{Prop: prop, MaxSteps: 32, W: map[string]int{}, WrongSign: 15, ModSvcPct: 15, Boundary: 0, PrefixProv: 20, PreludePct: 50, RestartW: 1, ParamChangeW: 1, DenomChangePct: 20, ForeignPricePct: 40, ExchangePct: 70, ForeignCasePct: 25}
+	f := Focus{Prop: prop, MaxSteps: 32, W: map[string]int{}, WrongSign: 15, ModSvcPct: 15, Boundary: 0, PrefixProv: 20, PreludePct: 50, RestartW: 1, ParamChangeW: 1, DenomChangePct: 20, ForeignPricePct: 40, ExchangePct: 70, ForeignCasePct: 25, IllegalPricingPct: 3}
 	if tier == "thorough" {
 		f.MaxSteps = 70
 	}
@@ -117,6 +118,9 @@ func FocusFor(prop string, tier string) Focus {
 		mul(2, KModCreate)
 	case "C06", "C07":
 		mul(2, KCall, KUpdateBind, KUpdateCtx, KRespond)
+		if prop == "C07" {
+			f.IllegalPricingPct = 10
+		}
 	case "C08":
 		mul(3, KRespond)
 		mul(2, KCall)
@@ -302,6 +306,43 @@ func (g *GenState) genPriceDenom(t *rapid.T) string {
 		return "point"
 	}
 	return "stake"
+}
+
+// illegalPricingSometimes: 3 % (10 % in the focus of C07) of the pricing texts sent with a bind / update break the
+// published rules for promotions (a discount outside (0,1) or with a trailing zero, a window
+// that ends before it starts or overlaps its predecessor, thresholds that decrease, a zero
+// threshold). The module must reject every one of them; if one gets through, the price and
+// validity oracles see its effects.
+// close to legal: above 1 with a legal-looking shape, exactly 0 and 1, negative, trailing zero
+var badDiscounts = []string{"1.5", "1.1", "2.5", "9.9", "1", "0", "0.0", "-0.5", "0.50", "1.0", "10.5"}
+
+func illegalPricingSometimes(t *rapid.T, pricing string, nowNs int64, percent int) string {
+	if !pct(t, "illegal_pricing", percent) {
+		return pricing
+	}
+	price := `"price":"10stake"`
+	if i := strings.Index(pricing, `"price":"`); i >= 0 {
+		if j := strings.Index(pricing[i+9:], `"`); j >= 0 {
+			price = pricing[i : i+9+j+1]
+		}
+	}
+	switch pick(t, "illegal_kind", []string{"discount", "discount_vol", "window_reversed", "window_overlap", "volume_decreasing", "volume_zero"}) {
+	case "discount":
+		d := pick(t, "bad_discount", badDiscounts)
+		return fmt.Sprintf(`{%s,"promotions_by_time":[{"start_time":"%s","end_time":"%s","discount":"%s"}]}`, price, fmtTime(nowNs-10e9), fmtTime(nowNs+3600e9), d)
+	case "discount_vol":
+		d := pick(t, "bad_discount", badDiscounts)
+		return fmt.Sprintf(`{%s,"promotions_by_volume":[{"volume":1,"discount":"%s"}]}`, price, d)
+	case "window_reversed":
+		return fmt.Sprintf(`{%s,"promotions_by_time":[{"start_time":"%s","end_time":"%s","discount":"0.5"}]}`, price, fmtTime(nowNs+5e9), fmtTime(nowNs-5e9))
+	case "window_overlap":
+		return fmt.Sprintf(`{%s,"promotions_by_time":[{"start_time":"%s","end_time":"%s","discount":"0.5"},{"start_time":"%s","end_time":"%s","discount":"0.9"}]}`,
+			price, fmtTime(nowNs-10e9), fmtTime(nowNs+10e9), fmtTime(nowNs), fmtTime(nowNs+20e9))
+	case "volume_decreasing":
+		return fmt.Sprintf(`{%s,"promotions_by_volume":[{"volume":3,"discount":"0.9"},{"volume":1,"discount":"0.5"}]}`, price)
+	default:
+		return fmt.Sprintf(`{%s,"promotions_by_volume":[{"volume":0,"discount":"0.5"}]}`, price)
+	}
 }
 
 // GenPricingIn draws a pricing text quoted in the given token.
@@ -1041,7 +1082,7 @@ func (g *GenState) genOfKind(t *rapid.T, kind string) Action {
 		if o, ok := s.Owner[prov]; ok {
 			owner = g.signerFor(t, o)
 		}
-		pricing := GenPricingIn(t, s.TimeNs, g.genPriceDenom(t))
+		pricing := illegalPricingSometimes(t, GenPricingIn(t, s.TimeNs, g.genPriceDenom(t)), s.TimeNs, g.F.IllegalPricingPct)
 		base := int64(0)
 		if rp, err := ParseRefPricing(pricing); err == nil {
 			base = g.Cfg.InBase(rp)
@@ -1064,7 +1105,7 @@ func (g *GenState) genOfKind(t *rapid.T, kind string) Action {
 			a.Options = "{}"
 			newBase := g.basePriceOf(b)
 			if pct(t, "upd_pricing", 50) {
-				a.Pricing = GenPricingIn(t, s.TimeNs, g.genPriceDenom(t))
+				a.Pricing = illegalPricingSometimes(t, GenPricingIn(t, s.TimeNs, g.genPriceDenom(t)), s.TimeNs, g.F.IllegalPricingPct)
 				if pct(t, "upd_same_pricing", 12) {
 					a.Pricing = b.Pricing // a client re-submitting the full, unchanged specification
 				}
